@@ -825,8 +825,8 @@ impl Context {
                 }
             }
 
+            // The type is incomplete until all values are known so is only named from end_enum
             existing_symbols.push(ScopeSymbol::EnumScope(new_scope));
-            existing_symbols.push(ScopeSymbol::Type(type_id));
         }
 
         Ok(id)
@@ -921,6 +921,22 @@ impl Context {
             .enum_registry
             .set_underlying_type_id(enum_id, underlying_ty, scalar_type);
 
+        // The enum is complete so can now be named as a type
+        {
+            let name = self
+                .module
+                .enum_registry
+                .get_enum_definition(enum_id)
+                .name
+                .to_string();
+            let type_id = self.module.enum_registry.get_type_id(enum_id);
+            self.scopes[parent_scope]
+                .symbols
+                .entry(name)
+                .or_default()
+                .push(ScopeSymbol::Type(type_id));
+        }
+
         // Update values to be in the selected underlying type
         for (_, enum_value_id) in &enum_values {
             let constant = &self
@@ -996,6 +1012,15 @@ impl Context {
                 .register_enum_value(enum_id, name.clone(), value, value_ty);
 
         let parent_scope = self.scopes[self.current_scope].parent_scope;
+
+        // The name of the enum is only added to the parent scope when the enum is complete
+        if self.module.enum_registry.get_enum_definition(enum_id).name.node == name.node {
+            return Err(TyperError::ValueAlreadyDefined(
+                name.clone(),
+                ErrorType::Unknown,
+                ErrorType::Unknown,
+            ));
+        }
 
         // Check for existing symbols
         // Enum scope only cares about the values we are declaring in the current enum
